@@ -65,6 +65,12 @@ def sub_handle(op):
     return None
 
 
+def sub_handles(op):
+    """All square sub-operators (size >= 2) held directly by `op`, in argument order."""
+    from linear_operator.operators import LinearOperator
+    return [a for a in op._args if isinstance(a, LinearOperator) and a.dim() >= 2 and a.shape[-1] == a.shape[-2] and a.shape[-1] >= 2]
+
+
 def _tensors_of(v, out, depth=0):
     from linear_operator.operators import LinearOperator
     if depth > 6:
@@ -238,6 +244,7 @@ def catalogue(rng, tier):
             truth = o_.to_dense().detach().clone()
         sp = Spec(cls, make, truth, profile, pd, tags)
         sp.has_sub = pd and sub_handle(o_) is not None
+        sp.nsub = len(sub_handles(o_)) if pd else 0
         specs.append(sp)
 
     n = rng.choice([5, 6])
@@ -310,6 +317,8 @@ def catalogue(rng, tier):
     add("BlockInterleaved(Dense[b=2])[2x3]", lambda a=Bd: O.BlockInterleavedLinearOperator(O.DenseLinearOperator(a.clone())), "block")
     add("KroneckerDiag[2x3]", lambda a=dk2, b=dk3: O.KroneckerProductDiagLinearOperator(O.DiagLinearOperator(a.clone()), O.DiagLinearOperator(b.clone())), "diag")
     add("Identity[n=4]", lambda: O.IdentityLinearOperator(4, dtype=F64), "diag", tags=("degenerate",))
+    M1 = rand_pd(rng, 4, lo=1.0, hi=2.0)
+    add("Matmul(Dense,Dense)[n=4]", lambda a=M1: O.MatmulLinearOperator(O.DenseLinearOperator(a.clone()), O.DenseLinearOperator(a.clone())), "matmul")
     if tier == "thorough":
         A9 = rand_pd(rng, 9)
         add("Dense[n=9]", lambda A=A9: O.DenseLinearOperator(A.clone()), "base")
@@ -658,6 +667,14 @@ def derive(op, A, d, aux):
     if kind == "index":
         k = n - 1
         return op[..., :k, :k], A[..., :k, :k], True
+    if kind == "index_tail":        # NON-leading contiguous diagonal block  op[a:n, a:n], a = 1
+        return op[..., 1:n, 1:n], A[..., 1:n, 1:n], True
+    if kind == "index_inner":       # NON-leading, non-trailing contiguous diagonal block  op[1:n-1, 1:n-1]
+        return op[..., 1:n - 1, 1:n - 1], A[..., 1:n - 1, 1:n - 1], True
+    if kind == "index_step":        # stepped principal submatrix
+        return op[..., ::2, ::2], A[..., ::2, ::2], True
+    if kind == "index_rect":        # non-square block (control): only to_dense / matmul make sense on it
+        return op[..., 1:n, 0:n - 1], A[..., 1:n, 0:n - 1], False
     if kind == "index_batch":
         return op[0], A[0], True
     if kind == "transpose":
@@ -682,7 +699,8 @@ def derivations_for(spec, A):
         if spec.profile == "kernel":
             ds += [("add_jitter",), ("add_diagonal",)]
         return ds
-    ds = [("add_jitter",), ("add_diagonal",), ("add_low_rank",), ("transpose",), ("scale",), ("index",)]
+    ds = [("add_jitter",), ("add_diagonal",), ("add_low_rank",), ("transpose",), ("scale",), ("index",), ("index_tail",), ("index_inner",),
+          ("index_step",)]
     if spec.profile != "brepeat":   # BatchRepeat's eigendecompositions lose leading singleton batch dims (not a cache matter)
         ds += [("expand",), ("unsqueeze",)]
     ds += [("add_low_rank", a, b) for a, b in METHOD_PAIRS]
@@ -924,6 +942,66 @@ def templates(spec):
     return t
 
 
+INDEX_KINDS = [("index",), ("index_tail",), ("index_inner",), ("index_step",)]
+
+
+def pre_templates(spec, rng, tier, ci=0):
+    """All-default-settings histories with ONE factorization pre-computed (cells live in the namespace `pre:`):
+    (1) derive-after-precompute: every derivation applied to a parent on which one cacheable factorization was computed first; the
+        derived operator's Cholesky-based (and other) queries are compared with a cache-free copy and the dense truth.  The indexing
+        derivations (leading, NON-leading tail / inner block, stepped, non-square) x the Cholesky-path pre-queries are always run,
+        the other (derivation, pre-query) pairs as a seed-rotating subset;
+    (2) composite-after-precompute: one pre-query on the composite or on one of its sub-operator handles, then root_decomposition and
+        root_inv_decomposition of the composite with EVERY explicit method."""
+    if spec.profile in ("tri", "interp", "kernel"):
+        return []
+    Q = lambda *q: ("q", tuple(q))  # noqa: E731
+    out = []
+    chol_pre = [Q("cholesky", False), Q("root", "none", None), Q("logdet")]
+    other_pre = [Q("cholesky", True), Q("rootinv", "none", None), Q("diagz", "none", None), Q("svd"), Q("root", "kw", "symeig"),
+                 Q("root", "kw", "lanczos"), Q("root", "kw", "cholesky"), Q("iql"), Q("sample"), Q("eigh"), Q("hook_cholesky", True)]
+    post = [Q("cholesky", False), Q("cholesky", True), Q("root", "none", None), Q("rootinv", "none", None), Q("logdet"), Q("iql"),
+            Q("sample"), Q("solve"), Q("to_dense")]
+    tail = [(DF, ("back",)), (DF, Q("cholesky", False)), (DF, Q("logdet"))]
+    idx = list(INDEX_KINDS) + ([("index_batch",)] if spec.truth.dim() > 2 else [])
+    for d in idx:
+        for pre in chol_pre:
+            out.append([(DF, pre), (DF, ("d", d))] + [(DF, x) for x in post] + tail)
+    for pre in chol_pre[:2]:
+        out.append([(DF, pre), (DF, ("d", ("index_rect",))), (DF, Q("to_dense")), (DF, Q("matmul")), (DF, ("back",)), (DF, Q("cholesky", False))])
+    singles = [d for d in derivations_for(spec, spec.truth) if len(d) == 1]
+    pairs = [(d, pre) for d in singles for pre in chol_pre + other_pre if not (d in idx and pre in chol_pre)]
+    # the plain Dense operator (base-class implementations throughout) takes EVERY (derivation, pre-query) pair; the other classes a
+    # rotating chunk of one run-wide shuffle, so that each pair is visited by several classes in every run
+    import random as _random
+    k = 8 if tier == "quick" else 40
+    order = list(pairs)
+    _random.Random(rng.getrandbits(32) if ci < 0 else f"pairs:{getattr(rng, 'pre_salt', 0)}").shuffle(order)
+    if spec.profile == "base" and spec.truth.dim() == 2:
+        chosen = order
+    else:
+        start = (ci * k) % max(1, len(order))
+        chosen = (order + order)[start:start + min(k, len(order))]
+    for d, pre in chosen:
+        out.append([(DF, pre), (DF, ("d", d))] + [(DF, x) for x in post] + tail)
+    # (2) composites
+    nsub = getattr(spec, "nsub", 0)
+    if nsub:
+        pre2 = [("logdet",), ("iql",), ("cholesky", False), ("diagz", "none", None), ("diagz", "kw", "symeig"), ("diagz", "kw", "lanczos"),
+                ("root", "none", None), ("rootinv", "none", None)]
+        rest = [("root", "kw", m) for m in ROOT_METHODS[1:]] + [("rootinv", "kw", "lanczos"), ("rootinv", "kw", "symeig"), ("svd",), ("eigh",)]
+        pre2 += rest if tier != "quick" else rng.sample(rest, k=4)
+        roots = [("root", "kw", m) for m in ROOT_METHODS[1:]]
+        rinvs = [("rootinv", "kw", m) for m in ROOTINV_METHODS[1:]]
+        off = rng.randrange(6)
+        for ti, tgt in enumerate(["self"] + list(range(nsub))):
+            for pi, pre in enumerate(pre2):
+                r = (ti + pi + off) % len(roots)
+                first = (DF, ("q", pre)) if tgt == "self" else (DF, ("qs", pre, tgt))
+                out.append([first] + [(DF, ("q", x)) for x in roots[r:] + roots[:r]] + [(DF, ("q", x)) for x in rinvs[r:] + rinvs[:r]])
+    return out
+
+
 # ----------------------------------------------------------------------------------------------- engine
 
 def hist_json(hist):
@@ -992,14 +1070,14 @@ class Runner:
         self.excluded[spec.cls] = bad
         return bad
 
-    def run_history(self, spec, hist, hid, record=True):
+    def run_history(self, spec, hist, hid, record=True, ns=""):
         """Run one history.  Returns list of (cell, what) failures."""
         chk, env = self.chk, self.env
         aux = self.aux_for(spec)
         with env(DF):
             op = spec.make()
             _ = op.shape
-        stack = [{"op": op, "A": spec.truth, "pd": spec.pd, "sticky": set(), "cls": spec.cls, "lineage": "base", "tainted": False}]
+        stack = [{"op": op, "A": spec.truth, "pd": spec.pd, "sticky": set(), "cls": ns + spec.cls, "lineage": "base", "tainted": False}]
         fails = []
         aliases = [False]
         mlines, mexp = [], []
@@ -1049,10 +1127,13 @@ class Runner:
                 continue
             is_sub = step[0] == "qs"
             if is_sub:
-                if "sub" not in fr:
-                    sh = sub_handle(fr["op"])
+                sidx = step[2] if len(step) > 2 else 0
+                skey = "sub" if sidx == 0 else f"sub{sidx}"
+                if skey not in fr:
+                    hs = sub_handles(fr["op"])
+                    sh = hs[sidx] if sidx < len(hs) else None
                     if sh is None:
-                        fr["sub"] = None
+                        fr[skey] = None
                     else:
                         with env(DF):
                             sA = deep_fresh(sh).to_dense().detach().clone()
@@ -1062,16 +1143,18 @@ class Runner:
                                 and (sA - sA.mT).abs().max().item() < 1e-10):
                             sh = None       # only SPD handles take the factorization queries
                     if sh is None:
-                        fr["sub"] = None
+                        fr[skey] = None
                     else:
-                        fr["sub"] = {"op": sh, "A": sA, "pd": True, "sticky": fr["sticky"], "cls": fr["cls"],
-                                     "lineage": fr["lineage"] + ">sub0", "tainted": fr["tainted"]}
-                if fr["sub"] is None:
+                        fr[skey] = {"op": sh, "A": sA, "pd": True, "sticky": fr["sticky"], "cls": fr["cls"],
+                                    "lineage": fr["lineage"] + f">sub{sidx}", "tainted": fr["tainted"]}
+                if fr[skey] is None:
                     continue
+                if sidx != 0:
+                    wmod = False
                 if len(stack) > 1:
                     modelled = False    # the handle may be the parent object itself: its cache changes behind the single-object model
                 wtop = fr
-                fr = fr["sub"]
+                fr = fr[skey]
                 step = ("q", step[1])
             op, A = fr["op"], fr["A"]
             n = A.shape[-1]
@@ -1169,8 +1252,10 @@ class Runner:
                                 + ("*" if ko else ("tri" if obs.get("root_tri") else "-")))
             elif step[0] == "d":
                 d = step[1]
-                if (d[0] == "index_batch" and A.dim() <= 2) or (d[0] == "cat_rows" and A.dim() != 2) or (d[0] == "index" and n <= 2):
+                if (d[0] == "index_batch" and A.dim() <= 2) or (d[0] == "cat_rows" and A.dim() != 2) or (d[0] == "index" and n <= 2) \
+                        or (d[0] in ("index_tail", "index_step", "index_rect") and n <= 3) or (d[0] == "index_inner" and n <= 4):
                     # not applicable to the current object: keep the stack balanced with a no-op frame
+                    wmod = False        # (the wrapper model records base-frame steps only)
                     stack.append(fr)
                     aliases.append(True)
                     continue
@@ -1301,7 +1386,7 @@ class Runner:
         return fails
 
 
-def shrink(runner, spec, hist, cell):
+def shrink(runner, spec, hist, cell, ns=""):
     hist = list(hist)
     changed = True
     budget = 60
@@ -1324,7 +1409,7 @@ def shrink(runner, spec, hist, cell):
             if budget <= 0:
                 break
             try:
-                f = runner.run_history(spec, cand, None, record=False)
+                f = runner.run_history(spec, cand, None, record=False, ns=ns)
             except Exception:
                 continue
             if any(c == cell for c, _ in f):
@@ -1335,7 +1420,11 @@ def shrink(runner, spec, hist, cell):
 
 def run(chk):
     table = c12_cache.generate()
-    chk.rule = ("per operator class of the catalogue: template histories covering every cache write-site -> read-site pair, then "
+    chk.rule = ("per operator class of the catalogue: template histories covering every cache write-site -> read-site pair, all-default-settings "
+                "`pre:` histories (one factorization pre-computed on the object or on one of its sub-operator handles, then either a derivation — "
+                "indexing with leading / non-leading / stepped / non-square blocks always, the other derivations as a rotating subset, all of them on "
+                "Dense — followed by the Cholesky-based queries on the derived operator, or root_decomposition / root_inv_decomposition of the composite "
+                "with every explicit method), then "
                 "seed-random histories (length <= 8 quick / <= 20 thorough) of queries (to_dense, cholesky(upper), root_decomposition / "
                 "root_inv_decomposition / diagonalization with every method and calling convention, svd, eigh, eigvalsh, solve, logdet, "
                 "inv_quad_logdet, inv_quad, diagonal, matmul, sampling, inverse, preconditioner), settings changes (max_cholesky_size on "
@@ -1352,6 +1441,7 @@ def run(chk):
     env = Env()
     runner = Runner(chk, env)
     specs = catalogue(chk.rng, chk.tier)
+    chk.rng.pre_salt = chk.rng.getrandbits(32)      # one shuffle of the (derivation, pre-query) pairs per run
     nrand, maxlen = (6, 8) if chk.tier == "quick" else (40, 20)
     hists = []
     for spec in specs:
@@ -1362,6 +1452,9 @@ def run(chk):
             hists.append((spec, t, "template"))
         for _ in range(nrand):
             hists.append((spec, gen_history(chk.rng, spec, chk.rng.randint(3, maxlen), excluded=ex), "random"))
+        for t in pre_templates(spec, chk.rng, chk.tier, ci=specs.index(spec)):
+            t = [(st, step) for st, step in t if not (step[0] == "q" and step[1] in ex)]
+            hists.append((spec, t, "pre"))
     def tame(spec, hist):
         # repeated eigenvalues: Lanczos breaks down (not a cache matter) -> default settings, no Lanczos methods
         if "degenerate" not in spec.tags:
@@ -1376,7 +1469,7 @@ def run(chk):
         chk.count("class:" + spec.cls)
         chk.count("steps", len(hist))
         try:
-            fails = runner.run_history(spec, hist, hid)
+            fails = runner.run_history(spec, hist, hid, ns=("pre:" if kind == "pre" else ""))
         except Exception as e:
             import traceback
             fails = [(f"C12/{spec.cls}/harness-exception", f"{type(e).__name__}: {e} {traceback.format_exc()[-400:]}")]
@@ -1388,8 +1481,9 @@ def run(chk):
             if chk.known(cell) is not None:
                 chk.violation(cell, what, None)
                 continue
-            small = shrink(runner, spec, hist, cell) if "harness-exception" not in cell else hist
-            chk.violation(cell, what, {"class": spec.cls, "history": hist_json(small), "seed": chk.seed, "tier": chk.tier})
+            ns_ = "pre:" if kind == "pre" else ""
+            small = shrink(runner, spec, hist, cell, ns_) if "harness-exception" not in cell else hist
+            chk.violation(cell, what, {"class": spec.cls, "history": hist_json(small), "seed": chk.seed, "tier": chk.tier, "ns": ns_})
     env.close()
     outs = chk.run_driver("C12", runner.lines)
     if outs is not None:
@@ -1436,7 +1530,7 @@ def replay(chk, payload):
     specs = catalogue(rng, p.get("tier", "quick"))
     spec = next(s for s in specs if s.cls == p["class"])
     runner = Runner(chk, Env())
-    fails = runner.run_history(spec, hist_unjson(p["history"]), 0, record=False)
+    fails = runner.run_history(spec, hist_unjson(p["history"]), 0, record=False, ns=p.get("ns", ""))
     chk.case(json.dumps(p["history"]))
     for cell, what in fails:
         chk.violation(cell, what, p)
